@@ -168,7 +168,36 @@ func init() {
 	})
 }
 
+// resendRepersists: a session takeover clears the old connection's in-flight rows in the store (ClearInflights ->
+// OnQosDropped under the same client id); the only thing that writes them back is the OnQosPublish call in the
+// resend, so every record visited by ResendInflightMessages is handed to the hook before anything that can fail.
+func resendRepersists(c *Ctx, rule string) {
+	f := c.fn("mqtt", "(*Client).ResendInflightMessages")
+	if f == nil {
+		return
+	}
+	var body *ssa.BasicBlock
+	for _, b := range f.Blocks {
+		if (b.Comment == "rangeindex.body" || b.Comment == "rangeiter.body") && body == nil {
+			body = b
+		}
+	}
+	if body == nil {
+		c.ob(rule, "(*mqtt.Client).ResendInflightMessages iterates over the stored records", c.pos(f.Pos()), false, "loop not found")
+		return
+	}
+	_, hit := (&PathQuery{Fn: f, From: body.Instrs[0], Target: func(x ssa.Instruction) bool {
+		if _, ok := x.(*ssa.Return); ok {
+			return true
+		}
+		return isNamed(fnWritePacket)(x)
+	}, Barrier: isNamed("(*mqtt.Hooks).OnQosPublish")}).Find()
+	c.ob(rule, "(*mqtt.Client).ResendInflightMessages: each resumed record is handed to hooks.OnQosPublish before the write that may fail", c.pos(body.Instrs[0].Pos()), hit == nil,
+		"the takeover deleted the session's stored in-flight rows; a failed resend write would return before they are written back, and a restart then forgets the message")
+}
+
 func runC09(c *Ctx) {
+	resendRepersists(c, "C09.e resend-repersists")
 	roles := map[string]string{
 		"(*mqtt.Server).processPuback":          "ack-handler: PUBACK completes an outbound QoS 1 message",
 		"(*mqtt.Server).processPubrec":          "ack-handler: PUBREC with an error code ends the outbound flow",
